@@ -609,6 +609,10 @@ impl ArrayImpl {
 
     /// Returns the sum of values.
     pub fn sum(&self) -> DataValue {
+        // the sum of no (non-null) values is NULL, not 0
+        if self.count() == 0 {
+            return DataValue::Null;
+        }
         match self {
             Self::Int16(a) => DataValue::Int16(a.raw_iter().sum()),
             Self::Int32(a) => DataValue::Int32(a.raw_iter().sum()),
